@@ -1,6 +1,7 @@
 package main
 
 import (
+	"encoding/json"
 	"flag"
 	"math"
 	"math/rand"
@@ -13,7 +14,49 @@ import (
 	"github.com/pdok/texel/tms20"
 )
 
-func init() { register("snap-trace", snapTrace) }
+func init() {
+	register("snap-trace", snapTrace)
+	register("snap-replay", snapReplay)
+}
+
+func synGridByName(name string) *synGrid {
+	if g, ok := synGridCache[name]; ok {
+		return g
+	}
+	for _, d := range synGridDefs {
+		if d.name == name {
+			g := newSynGrid(d.tw, d.m, d.x0, d.y0, d.corner, d.nz)
+			synGridCache[name] = g
+			return g
+		}
+	}
+	fatal("unknown grid %s", name)
+	return nil
+}
+
+// snapReplay re-executes recorded calls (records on stdin) against the current code and prints fresh records.
+func snapReplay(args []string) int {
+	fs := flag.NewFlagSet("snap-replay", flag.ExitOnError)
+	in := fs.String("in", "-", "")
+	fs.Parse(args)
+	out := newJSONL("-")
+	defer out.close()
+	readJSONLines(*in, func(line []byte) {
+		var r snapRec
+		if err := json.Unmarshal(line, &r); err != nil {
+			fatal("bad record: %v", err)
+		}
+		sg := &snapGrid{g: synGridByName(r.Grid), name: r.Grid, ids: r.IDs, ox: r.OX, oy: r.OY}
+		ids := []int{}
+		for _, e := range r.Lv {
+			ids = append(ids, e.Z)
+		}
+		rec := runSnap(sg, r.Poly, ids, snap.Config{KeepPointsAndLines: r.Keep, IgnoreOutsideGrid: r.Ig, ReverseWindingOrder: r.Rev}, r.W)
+		rec.G, rec.V, rec.Tag = r.G, r.V, r.Tag
+		out.put(rec)
+	})
+	return 0
+}
 
 // lvRec: a requested tile matrix and how many levels it is coarser than the group's finest level
 type lvRec struct {
@@ -27,21 +70,24 @@ type resRec struct {
 }
 
 type snapRec struct {
-	G     int       `json:"g"`   // group: records of one input, consecutive in the trace
-	V     string    `json:"v"`   // which variant of the group this is (informational)
-	Tag   string    `json:"tag"` // generator (informational)
-	Grid  string    `json:"grid"`
-	Lv    []lvRec   `json:"lv"`
+	G     int        `json:"g"`   // group: records of one input, consecutive in the trace
+	V     string     `json:"v"`   // which variant of the group this is (informational)
+	Tag   string     `json:"tag"` // generator (informational)
+	Grid  string     `json:"grid"`
+	Lv    []lvRec    `json:"lv"`
 	Poly  [][][2]int `json:"poly"`
-	Keep  bool      `json:"keep"`
-	Ig    bool      `json:"ig"`
-	Rev   bool      `json:"rev"`
-	Out   string    `json:"out"` // "ok" | "panic: ..."
-	Res   []resRec  `json:"res"`
-	Exact bool      `json:"exact"`
-	Ms    int       `json:"ms"`
-	Nv    int       `json:"nv"`
-	W     int       `json:"w"` // window size in finest pixels (bounds the sample locations of C04)
+	Keep  bool       `json:"keep"`
+	Ig    bool       `json:"ig"`
+	Rev   bool       `json:"rev"`
+	Out   string     `json:"out"` // "ok" | "panic: ..."
+	Res   []resRec   `json:"res"`
+	Exact bool       `json:"exact"`
+	Ms    int        `json:"ms"`
+	Nv    int        `json:"nv"`
+	W     int        `json:"w"`  // window size in finest pixels (bounds the sample locations of C04)
+	OX    int        `json:"ox"` // placement of the window (finest pixels) and the group's tile matrix ids: enough to re-run the call
+	OY    int        `json:"oy"`
+	IDs   []int      `json:"ids"`
 }
 
 // snapGrid: where the window of a group sits
@@ -80,11 +126,11 @@ var synGridDefs = []struct {
 	corner string
 	nz     int
 }{
-	{"syn-a", 1, 4, 0, 0, "bottomLeft", 3},             // levels 4,5,6
-	{"syn-b", 2, 6, -1024.5, 2048.25, "topLeft", 3},    // levels 5,6,7
-	{"syn-c", 16, 10, 12345.5, 678.25, "topLeft", 2},   // levels 8,9
-	{"syn-d", 1, 3, 100, 100, "bottomLeft", 4},         // levels 4..7
-	{"syn-e", 256, 12, -2048, -2048, "bottomLeft", 2},  // levels 12,13
+	{"syn-a", 1, 4, 0, 0, "bottomLeft", 3},            // levels 4,5,6
+	{"syn-b", 2, 6, -1024.5, 2048.25, "topLeft", 3},   // levels 5,6,7
+	{"syn-c", 16, 10, 12345.5, 678.25, "topLeft", 2},  // levels 8,9
+	{"syn-d", 1, 3, 100, 100, "bottomLeft", 4},        // levels 4..7
+	{"syn-e", 256, 12, -2048, -2048, "bottomLeft", 2}, // levels 12,13
 }
 
 var synGridCache = map[string]*synGrid{}
@@ -128,7 +174,7 @@ func pickSnapGrid(rng *rand.Rand, w int) *snapGrid {
 }
 
 func runSnap(sg *snapGrid, poly lpoly, ids []int, cfg snap.Config, w int) snapRec {
-	rec := snapRec{Grid: sg.name, Poly: poly, Keep: cfg.KeepPointsAndLines, Ig: cfg.IgnoreOutsideGrid, Rev: cfg.ReverseWindingOrder, Exact: true, W: w, Res: []resRec{}}
+	rec := snapRec{OX: sg.ox, OY: sg.oy, IDs: sg.ids, Grid: sg.name, Poly: poly, Keep: cfg.KeepPointsAndLines, Ig: cfg.IgnoreOutsideGrid, Rev: cfg.ReverseWindingOrder, Exact: true, W: w, Res: []resRec{}}
 	fin := sg.finest()
 	rec.Lv = []lvRec{}
 	for _, z := range ids {
